@@ -715,9 +715,16 @@ func (w *Worker) doTaskAttempt(
 				return err
 			}
 		case RecordFlagNack:
+			_, isProcessor := t.(*ProcessorTask)
+			if isProcessor {
+				// The nack of a piece of a split run can be withheld by the run
+				// ledger and forwarded later through another call (e.g. the ack
+				// of a filtered sibling), let the run carry the classification.
+				subBatch.markProcessorNack()
+			}
 			err := acker.Nack(ctx, subBatch, t.ID())
 			if err != nil {
-				if _, ok := t.(*ProcessorTask); ok {
+				if isProcessor {
 					// A processor error that the DLQ did not absorb is fatal,
 					// same as in the default engine (stream.ProcessorNode).
 					// Processors are deterministic, so recovering would lead
